@@ -13,6 +13,7 @@ are about, on every well-formed group): the property theorems become theorems ab
 -/
 import MenpoModel.Generated.C15Src
 import MenpoModel.Props.C15
+import Mathlib.Tactic.SplitIfs
 
 set_option linter.unusedSimpArgs false
 set_option linter.unusedVariables false
@@ -99,7 +100,8 @@ macro "src_close" : tactic => `(tactic| first
   | rfl
   | ((repeat' split) <;> simp_all <;> done)
   | ((repeat' split) <;> simp_all [List.isEmpty_iff, List.length_pos_iff, List.length_eq_zero_iff, Nat.pos_iff_ne_zero]
-      <;> done))
+      <;> done)
+  | ((repeat' split) <;> (try split_ifs at *) <;> (try simp_all) <;> (try omega) <;> done))
 
 theorem labels_prop_eq {α} (g : LGraph α) : labels_prop g = g.names := by
   unfold labels_prop LGraph.names ODict.keys
@@ -519,7 +521,7 @@ theorem validated_wrong {α} (xs : List α) (n : Nat) (h : xs.length ≠ n) :
 /-- normalisation used by the per-labeller obligations (GenProps/C15SrcLab.lean): push the map of the points through
 every operation of the vocabulary -/
 macro "lab_nat_simp" "[" ls:Lean.Parser.Tactic.simpLemma,* "]" : tactic => `(tactic|
-  simp only [map_bind, bind_map, map_ok, map_error, mapOut_mk, mapOut_fst, mapOut_snd, points_list_map, points_mapObj, objEdges_mapObj,
+  simp only [inlined, map_bind, bind_map, map_ok, map_error, mapOut_mk, mapOut_fst, mapOut_snd, points_list_map, points_mapObj, objEdges_mapObj,
     triMesh_map, validated_map, takePts_map, objFromVector_map, dropLastN_map, validate_input_map,
     init_from_indices_map, from_ranges_map, lgraphObj_map, rangesObj_map, List.length_map, $ls,*])
 
